@@ -47,6 +47,9 @@ func (c *flagNameChecker) VisitExpr(expr ast.Expr) {
 	switch sym.Name {
 	case "Bool", "Duration", "Float64", "String",
 		"Int", "Int64", "Uint", "Uint64":
+		if len(call.Args) < 1 {
+			return // Only possible if the package has type errors
+		}
 		c.checkFlagName(call, call.Args[0])
 	case "BoolVar", "DurationVar", "Float64Var", "StringVar",
 		"IntVar", "Int64Var", "UintVar", "Uint64Var":
